@@ -143,6 +143,34 @@ func zzhGet(st *Style, k int) (bool, string) {
 	return false, ""
 }
 
+// zzhSetSub overwrites the second sub-field of a multi-field element.
+func zzhSetSub(st *Style, k int, sub string) {
+	switch k {
+	case 0:
+		st.ParagraphPr.Spacing.After = sub
+	case 1:
+		st.ParagraphPr.Indentation.Left = sub
+	case 3:
+		st.ParagraphPr.ParagraphBorder.Top.Color = sub
+	case 4:
+		st.ParagraphPr.Shading.Val = sub
+	case 16:
+		st.RunPr.FontFamily.EastAsia = sub
+	}
+}
+
+func zzhWantSub(k int, v, sub string) string {
+	switch k {
+	case 0, 3, 16:
+		return v + "|" + sub + "|" + v + "|" + v
+	case 1:
+		return v + "|" + sub + "|" + v
+	case 4:
+		return v + "|" + sub
+	}
+	return zzhWant(k, v)
+}
+
 func zzhWant(k int, v string) string {
 	switch k {
 	case 0, 3, 16:
@@ -215,6 +243,12 @@ func ZZH_C14_NearestDefinition() {
 	for i := range vals {
 		vals[i] = zzvString()
 	}
+	// the second sub-field of a multi-field element under test is an independent string (may be
+	// empty, may differ from its siblings): an element is inherited whole, never field by field
+	subs := make([]string, n)
+	for i := range subs {
+		subs[i] = zzvString()
+	}
 	for k := 0; k < zzhNAttr; k++ {
 		sm := &StyleManager{styles: make(map[string]*Style)}
 		for i := 0; i < n; i++ {
@@ -226,6 +260,9 @@ func ZZH_C14_NearestDefinition() {
 				if (j == k && has[i]) || (j != k && othersPresent) {
 					zzhSet(st, j, vals[i]+zzvItoa(j))
 				}
+			}
+			if has[i] {
+				zzhSetSub(st, k, subs[i])
 			}
 			sm.AddStyle(st)
 		}
@@ -243,7 +280,7 @@ func ZZH_C14_NearestDefinition() {
 			want, wantVal := false, ""
 			for _, c := range chain {
 				if has[c] {
-					want, wantVal = true, zzhWant(k, vals[c]+zzvItoa(k))
+					want, wantVal = true, zzhWantSub(k, vals[c]+zzvItoa(k), subs[c])
 					break
 				}
 			}
